@@ -39,12 +39,15 @@ def clear_known_holders():
 
 
 _LRU = None
+_LRU_MODS = 0
 
 
 def _lru_wrappers():
-    global _LRU
-    if _LRU is None:
-        import sys
+    global _LRU, _LRU_MODS
+    import sys
+    n_mods = sum(1 for m in sys.modules if m.startswith("krrood.entity_query_language"))
+    if _LRU is None or n_mods != _LRU_MODS:
+        _LRU_MODS = n_mods
         out = []
         for modname, mod in list(sys.modules.items()):
             if not modname.startswith("krrood.entity_query_language"):
